@@ -684,6 +684,8 @@ def tie_relevant(prop, tie):
     name = tie[4:]
     if name.startswith("fibex_"):
         return prop == "C11"                       # the type vocabulary of the FIBEX loader
+    if name == "skip_with_level":
+        return prop == "C09"                       # the level criterion of the filter
     if name == "DEFAULT_ECU_ID":
         return prop == "C15"
     if name == "DEFAULT_MESSAGE_MAX_LEN":
